@@ -97,6 +97,7 @@ class RuleDBBase(RuleDBAbstract):
         return (
             self.rule_to_strategy == other.rule_to_strategy
             and self.eqv_rule_to_strategy == other.eqv_rule_to_strategy
+            and self.equivdb == other.equivdb
         )
 
     def add(self, start: int, ends: Tuple[int, ...], rule: AbstractRule) -> None:
